@@ -278,6 +278,9 @@ var c14Bases = map[string]*c14Base{}
 
 func c14SimParams() SimParams { return SimParams{StepCostNs: 100} }
 
+// c14Running names the program being executed (for attributing a crash).
+var c14Running string
+
 func c14Exec(t *testing.T, spec RunSpec, progs []c14Prog, backend int) (*simrt.Result, []progOutcome) {
 	var outs []progOutcome
 	cfg := simConfig(spec.Sim)
@@ -286,6 +289,7 @@ func c14Exec(t *testing.T, spec RunSpec, progs []c14Prog, backend int) (*simrt.R
 		s.SetDeadline("program-returns", 2*time.Hour)
 		for _, p := range progs {
 			out := &Out{}
+			c14Running = p.name
 			po := runProgram(p.prog, backend, NewProvider(p.prog.Modules), out)
 			s.Logf("program %s -> %s out=%d bytes", p.name, po.Outcome, len(po.Out))
 			outs = append(outs, po)
@@ -335,7 +339,7 @@ func runC14(t *testing.T, spec RunSpec) *Verdict {
 		return v
 	}
 	progs := []c14Prog{p}
-	if other := spec.P("repeat_after", -1); other >= 0 && other < len(c14Corpus) {
+	if other := spec.P("repeat_after", -1); other >= 0 && other < len(c14Corpus) && c14Baseline(t, c14Corpus[other], backend).skip == "" {
 		// the same program again in the same process after another program
 		progs = []c14Prog{p, c14Corpus[other], p}
 	}
@@ -348,6 +352,7 @@ func runC14(t *testing.T, spec RunSpec) *Verdict {
 	if v.Class != "" {
 		// a crash, deadlock or runaway that the sorted-order baseline does not have
 		v.Class = "order-dependence"
+		cell = c14Running + "/" + []string{"vm", "interp"}[backend]
 		v.Sig = P + "|order-dependence|outcome|" + cell
 		v.Msg = "under a permuted map order / schedule the run ended in " + res.Outcome + " (" + clip(res.Detail) + "); the sorted-order baseline completes"
 		return v
@@ -363,7 +368,15 @@ func runC14(t *testing.T, spec RunSpec) *Verdict {
 		return true
 	}
 	if check(0, "run") && len(progs) == 3 {
-		check(2, "repetition in the same process")
+		if check(2, "repetition in the same process") {
+			// the program in between is judged against its own baseline
+			ob := c14Baseline(t, progs[1], backend)
+			if ob.skip == "" {
+				cell = progs[1].name + "/" + []string{"vm", "interp"}[backend]
+				base = ob
+				check(1, "run")
+			}
+		}
 	}
 	return v
 }
@@ -436,7 +449,13 @@ func planC14(t *testing.T, tier string, seed uint64) ([]RunSpec, error) {
 				s.Sim.MapPerm = true
 				s.Sim.PPerm = []float64{0.05, 0.3, 1.0}[k%3]
 				if k%5 == 4 {
-					s.Params["repeat_after"] = (pi + 1 + k) % len(c14Targeted)
+					for o := 1; o < len(c14Targeted); o++ {
+						cand := (pi + o + k) % len(c14Targeted)
+						if c14Baseline(t, c14Corpus[cand], backend).skip == "" {
+							s.Params["repeat_after"] = cand
+							break
+						}
+					}
 				}
 				s.Seed = runSeed(seed, idx)
 				idx++
